@@ -801,6 +801,31 @@ def _handle_event_matching(
         #     pass
 
 
+def _is_same_action_event(
+    state: State, winning_event: Event, competing_event: Event
+) -> bool:
+    """Check if two competing events are the same action (identical events)."""
+    if not winning_event.is_equal(competing_event):
+        return False
+    if (
+        isinstance(winning_event, ActionEvent)
+        and winning_event.action_uid
+        and isinstance(competing_event, ActionEvent)
+        and competing_event.action_uid
+        and winning_event.action_uid != competing_event.action_uid
+    ):
+        # Only the start of an identical, not yet started action is one and the same action.
+        # An event for another action instance that was already started (e.g. Stop or
+        # Change) is a different event, even if its name and arguments are equal.
+        competing_action = state.actions.get(competing_event.action_uid)
+        if (
+            competing_action is not None
+            and competing_action.status != ActionStatus.INITIALIZED
+        ):
+            return False
+    return True
+
+
 def _resolve_action_conflicts(
     state: State, actionable_heads: List[FlowHead]
 ) -> List[FlowHead]:
@@ -866,12 +891,13 @@ def _resolve_action_conflicts(
                 competing_event = get_event_from_element(
                     state, competing_flow_state, competing_element
                 )
-                if winning_event.is_equal(competing_event):
+                if _is_same_action_event(state, winning_event, competing_event):
                     if (
                         isinstance(winning_event, ActionEvent)
                         and winning_event.action_uid
                         and isinstance(competing_event, ActionEvent)
                         and competing_event.action_uid
+                        and winning_event.action_uid != competing_event.action_uid
                     ):
                         # All heads that are on the exact same action as the winning head
                         # need to replace their action references with the winning heads action reference
